@@ -118,7 +118,8 @@ def step (_ : Unit) (line : String) : Unit × String :=
   | "xpacc" :: rest =>
     match ints rest with
     | some [period, bn, nvals, mode, ts, prop] =>
-      let vals := if mode = 0 then [] else List.range nvals.toNat
+      -- mode 3: the set in force (contract snapshot) has one member more than the set held in memory
+      let vals := if mode = 0 then [] else if mode = 3 then List.range (nvals.toNat + 1) else List.range nvals.toNat
       verdictStr (xpoaAccept period bn vals ts (propId prop))
     | _ => "bad-op"
   | ["single", idok, prop, key, sig] =>
